@@ -20,6 +20,8 @@ import EPV.Lemmas.MapArrayArrays
 import EPV.Lemmas.MapArrayHeap
 import EPV.Lemmas.MapArrayLaws
 import EPV.Lemmas.MapArrayMergeRefine
+import EPV.Lemmas.MapArrayRefine
+import EPV.Lemmas.MapArrayObserve
 namespace EPV.C15
 open EPV.MapArray
 
@@ -265,6 +267,24 @@ theorem ops_persistent_observe (d : Dialect) (hd : d.alias = false) (st : St) (o
   ⟨fun _ ha => prefix_getElem? (run_prefix d hd st ops).1 ha,
    fun _ hi => prefix_getElem? (run_prefix d hd st ops).2 hi⟩
 
+/-- **Deep version**: what an observer sees of an old value — its complete unfolding through the
+store (`obsSeq`: every key, every entry, every member, to any depth) — is the same after the run,
+for every old value whose addresses lie in the old store, provided the old store is `Closed`
+(its objects mention only addresses inside it; decidable, and true of every store the machine
+builds from the empty one — that last fact is observed by the correspondence, not proved). -/
+theorem ops_persistent_deep (d : Dialect) (hd : d.alias = false) (st : St) (hc : Closed st.store)
+    (ops : List Op) (fuel : Nat) (v : Seq) (hv : ∀ r ∈ seqRefs v, r < st.store.length) :
+    obsSeq (run d st ops).store fuel v = obsSeq st.store fuel v :=
+  (obs_stable (run_prefix d hd st ops).1 hc fuel).2 v hv
+
+/-- `Closed` holds on a non-trivial store (an array nested in an array) -/
+example : Closed [Obj.arr [[.atom (.int 1)]], Obj.arr [[.ref 0], [.atom (.int 2)]]] := by
+  intro a o h r hr
+  match a, h with
+  | 0, h => simp at h; subst h; simp [objRefs, seqRefs] at hr
+  | 1, h => simp at h; subst h; simp [objRefs, seqRefs] at hr; subst hr; decide
+  | n + 2, h => simp at h
+
 /-- the hypotheses are satisfiable on a non-trivial state: `$0 := (1)`, `$1 := [$0, $0]`, then
 `array:put($1, 1, $0)`, `array:append($1, $0)`, `map{1: $1}` — object 0 is still `[(1), (1)]`. -/
 example :
@@ -281,5 +301,44 @@ theorem ops_persistent_fails_with_aliasing :
     (run (pyDialect true) ⟨[], []⟩ ops).store[0]? = some (.arr [[.atom (.int 9)], [.atom (.int 1)]]) ∧
     (run (pyDialect false) ⟨[], []⟩ ops).store[0]? = some (.arr [[.atom (.int 1)], [.atom (.int 1)]]) := by
   decide
+
+/-! ## the code computes what F&O prescribes, over any operation sequence -/
+
+/-- PARTIAL (known findings F15d, F15f).  Full statement: *for every operation sequence the
+interpreter built from the Python transcriptions and the one built from the F&O definitions reach
+the same state* (same store, same values, same errors).  Proved for every sequence, from every
+state whose map objects are well-formed with keys in `K`, under the decidable hypotheses
+`noClash K` (no boolean-against-number pair, no clashing date pair among the keys in play) and
+"no `?` lookup with a boolean key" — the trigger predicates of F15d / F15f.  Witnesses that the
+full statement is false: `key_identity_fails_bool_int`, `key_identity_fails_dates`,
+`lookup_bool_index_differs`. -/
+theorem run_refines_spec_partial (K : List Key) (hK : noClash K = true) (st : St)
+    (hst : MapsOK K st.store) (ops : List Op)
+    (hops : ∀ op ∈ ops, (∀ k ∈ opKeys op, k ∈ K) ∧ opBoolLookup op = false) :
+    run (pyDialect false) st ops = run Spec.specDialect st ops :=
+  run_refine (Agree_of_noClash hK) st hst ops hops
+
+/-- …in particular from the empty state, with `K` = the literal keys of the history. -/
+theorem run_refines_spec_from_empty_partial (ops : List Op)
+    (hK : noClash (ops.flatMap opKeys) = true) (hb : ∀ op ∈ ops, opBoolLookup op = false) :
+    run (pyDialect false) ⟨[], []⟩ ops = run Spec.specDialect ⟨[], []⟩ ops :=
+  run_refine (Agree_of_noClash hK) ⟨[], []⟩ (fun a es h => by simp at h) ops
+    (fun op hop => ⟨fun k hk => List.mem_flatMap.2 ⟨op, hop, hk⟩, hb op hop⟩)
+
+/-- the hypotheses hold for a non-trivial history (keys 1, 1.0, 'a', NaN; put, merge, lookup) -/
+example :
+    let ops := [Op.seq [.lit (.int 7)], .mCtor [(.int 1, 0), (.str [97], 0), (.dnan, 0)],
+      .mPut 1 (.dec 1) 0, .seq [.var 1, .var 2], .mMerge 3 (some .combine), .lookup 4 (some [.dnan, .int 1])]
+    noClash (ops.flatMap opKeys) = true ∧ (∀ op ∈ ops, opBoolLookup op = false) ∧
+    (run (pyDialect false) ⟨[], []⟩ ops).env.getLast? =
+      some [.atom (.int 7), .atom (.int 7), .atom (.int 7), .atom (.int 7)] := by decide
+
+/-- F15d at a `?` lookup (kernel-checked witness): `[$0]?(true())` gives the first member for the
+code, XPTY0004 for the spec. -/
+theorem lookup_bool_index_differs :
+    let ops := [Op.seq [.lit (.int 7)], .aSquare [0], .lookup 1 (some [.bool true])]
+    (run (pyDialect false) ⟨[], []⟩ ops).env[2]? = some [.atom (.int 7)] ∧
+    (step Spec.specDialect (run Spec.specDialect ⟨[], []⟩ (ops.take 2)) (.lookup 1 (some [.bool true]))).2
+      = some .XPTY0004 := by decide
 
 end EPV.C15
